@@ -47,10 +47,16 @@ func (c *bytesCase) input(reg *Registry) ([]byte, Item, error) {
 
 func genBytesCase(rt *rapid.T, items []Item, maxEdits int) bytesCase {
 	c := bytesCase{ValCase: genVal(rt, items, false), Boxed: rapid.Bool().Draw(rt, "boxed")}
-	switch rapid.IntRange(0, 9).Draw(rt, "source") {
+	switch rapid.IntRange(0, 11).Draw(rt, "source") {
 	case 0:
 		c.Raw = rapid.SliceOfN(rapid.Byte(), 1, 40).Draw(rt, "raw")
 	case 1: // unmodified valid encoding
+	case 2, 3: // strings at the length-form boundaries, first one re-encoded in the next longer form
+		c.StrLen = rapid.SampledFrom([]int{1, 2, 3, 4, 252, 253, 253, 254, 255, 256}).Draw(rt, "strlen")
+		c.Edit = []byteEdit{{Kind: "strnonmin", N: c.StrLen}}
+		if rapid.Bool().Draw(rt, "pad") {
+			c.Edit = []byteEdit{{Kind: "nonzero", Pos: rapid.IntRange(0, 1000).Draw(rt, "pos"), Val: 1}}
+		}
 	default:
 		c.Edit = genEdits(rt, maxEdits)
 	}
